@@ -88,14 +88,14 @@ def run_model(r, queries, trunc=None):
 
 
 def one_run(job):
-    """job = (family, text, n, beta, kind); returns (job, Run, model records)"""
-    fam, text, n, beta, kind = job
+    """job = (family, text, n, beta, kind, variant); returns (job, Run, model records)"""
+    fam, text, n, beta, kind, variant = job
     sc = with_offset(text, kind) + "beta %s\n" % repr(beta)
     q = ["dm"]
     for i in range(n):
         for j in range(n):
             q += ["quad %d %d" % (i, j), "avg %d %d" % (i, j)]
-    r = edlib.run(sc, q)
+    r = edlib.run(sc, q, variant=variant)
     r.scenario = sc
     mq = ["dm"] + ["avg %d %d" % (i, j) for i in range(n) for j in range(n)]
     if r.error or r.crash or not r.dumprec("VEC"):
@@ -122,7 +122,7 @@ def vals(t, start=1):
 
 def analyse(chk, job, r, model, base_weights):
     """all checks on one run; returns list of (key_suffix, what) problems with the implementation and records ties"""
-    fam, text, n, beta, kind = job
+    fam, text, n, beta, kind, variant = job
     tag = "family=%s beta=%g offset=%s" % (fam, beta, kind)
     problems = []
     if r.crash:
@@ -268,7 +268,7 @@ def analyse(chk, job, r, model, base_weights):
 
 def shrink(chk, job, kinds_of_problem):
     """drop scenario lines while one of the same kinds of problem persists"""
-    fam, text, n, beta, kind = job
+    fam, text, n, beta, kind, variant = job
     lines = text.strip().split("\n")
     changed = True
     while changed:
@@ -277,12 +277,12 @@ def shrink(chk, job, kinds_of_problem):
             if lines[k].startswith("site") or lines[k].startswith("symm"):
                 continue
             cand = lines[:k] + lines[k + 1:]
-            j2 = (fam, "\n".join(cand) + "\n", n, beta, kind)
+            j2 = (fam, "\n".join(cand) + "\n", n, beta, kind, variant)
             try:
                 _, r, m = one_run(j2)
                 bw = None
                 if kind.startswith("const"):
-                    _, rb, _ = one_run((fam, j2[1], n, beta, "none"))
+                    _, rb, _ = one_run((fam, j2[1], n, beta, "none", variant))
                     bw = rb.weights() if not (rb.error or rb.crash) else None
                 savedt, savedn = list(chk.broken), list(chk.notes)
                 pr = analyse(chk, j2, r, m, bw)
@@ -308,9 +308,10 @@ def run(chk):
                     "full-space oracle coq/theories/EDSpec.v at binary64 (Jordan-Wigner matrices, rotation, Tr rho O)",
                     "Eigen's self-adjoint solver: certified per run (CERT: max|HU-UE|, max|U^+U-1|), which are the eigen_equation / eigenvectors_normalised hypotheses of avg_energy_is_trace"]
     chk.assume += ["floating-point rounding is outside the theorems (exact reals); comparisons use 1e-12 relative (model), 1e-9 (full-space oracle), and for offset invariance 1e-9 + 32 beta |offset| 2^-52 (rounding of eigenvalues of size |offset|)",
-                   "trace theorems are proved for real eigenvectors (default build); the complex build is covered by the correspondence only",
+                   "trace theorems are proved for real eigenvectors (default build); the complex build (complex hopping, genuinely complex eigenvectors) is covered by the correspondence runs only",
                    "operator data of EnsembleAverage (QuadraticOperator parts) are inputs of the model; their correctness is C10/C07 (hypotheses rotated, bimap_complete)"]
     edlib.binaries("real")
+    edlib.binaries("complex")
     pv.build_driver("driver_c09", ["C09_model"], floats=True)
 
     jobs = []
@@ -320,20 +321,30 @@ def run(chk):
             fam, text, n, info = gen(chk.rng, symm)
             text = strip_beta(text)
             for beta in BETAS:
-                jobs.append((fam, text, n, beta, "none"))
+                jobs.append((fam, text, n, beta, "none", "real"))
             for kind in ("const+", "const-", "mu+", "mu-"):
                 for beta in ([1e-3, 1.0, 1e3] if quick else BETAS):
-                    jobs.append((fam, text, n, beta, kind))
+                    jobs.append((fam, text, n, beta, kind, "real"))
+    # the complex build (POMEROL_COMPLEX_MATRIX_ELEMENTS): complex same-spin and spin-flip hopping, so that eigenvectors
+    # are genuinely complex and |v|^2 = |v*v| matters
+    for _ in range(1 if quick else 3):
+        t1, t2 = chk.rng.choice(["0.5,0.25", "0.25,-0.5", "1,0.5"]), chk.rng.choice(["0.25,-0.5", "0.5,0.5", "0.25,0.75"])
+        U = chk.rng.choice([1, 2, 4])
+        text = ("site A 1 2\nsite B 1 2\naddCoulombS A %d %s\naddLevel B %s\naddHopping4 A B %s\naddHopping8 A B %s 0 0 0 1\nsymm default\n"
+                % (U, fmt(-U / 2 + chk.rng.choice([0, 0.25])), fmt(chk.rng.choice(scen.DY)), t1, t2))
+        for beta in ([1e-2, 1.0, 1e2] if quick else BETAS):
+            jobs.append(("complex-two-site", text, 4, beta, "none", "complex"))
+            jobs.append(("complex-two-site", text, 4, beta, "const+", "complex"))
     with cf.ThreadPoolExecutor(max_workers=min(8, pv.NPROC)) as ex:
         results = list(ex.map(one_run, jobs))
     base = {}
     for job, r, m in results:
         if job[4] == "none" and not (r.error or r.crash):
-            base[(job[0], job[1], job[3])] = r.weights()
+            base[(job[0], job[1], job[3], job[5])] = r.weights()
     nviol = 0
     for job, r, m in results:
-        fam, text, n, beta, kind = job
-        bw = base.get((fam, text, beta))
+        fam, text, n, beta, kind, variant = job
+        bw = base.get((fam, text, beta, variant))
         problems = analyse(chk, job, r, m, bw)
         nb = len(r.blocks()) if not (r.error or r.crash) else 0
         sig = "%s beta=1e%+d offset=%s" % (fam, round(math.log10(beta)), kind)
@@ -348,7 +359,7 @@ def run(chk):
             kind0 = ([k for k in PRIORITY if k in kinds] + sorted(kinds))[0]
             key = "%s beta=%g offset=%s %s | %s" % (kind0, beta, kind, fam, small.replace("\n", ";"))
             chk.violation(key, "DensityMatrix (%s, beta=%g, offset %s): %s" % (fam, beta, kind, what),
-                          {"scenario": with_offset(small, kind) + "beta %s\n" % repr(beta), "family": fam, "beta": beta, "offset": kind,
+                          {"scenario": with_offset(small, kind) + "beta %s\n" % repr(beta), "family": fam, "beta": beta, "offset": kind, "variant": variant,
                            "problems": problems, "harness": "h_ed", "queries": ["dm", "avg i j for all pairs"]})
     chk.rule = ("one random instance per family of tools/scen.py (9 families incl. pairing and spinless with symmetries ignored; 4 in the thorough tier), "
                 "each at beta = 1e-3..1e3 without offset and at beta in {1e-3, 1, 1e3} (all seven in the thorough tier) with a constant +-2^20 added to H "
@@ -371,10 +382,11 @@ def replay(chk, path):
     edlib.binaries("real")
     fam, beta, kind = rp["replay"]["family"], rp["replay"]["beta"], rp["replay"]["offset"]
     text = strip_beta(sc)
-    n = int(edlib.run(sc, [], oracle=False).n())
-    job = (fam, text, n, beta, "none")      # the offset lines are already part of the stored scenario
+    n = int(edlib.run(sc, [], oracle=False, variant=rp["replay"].get("variant", "real")).n())
+    variant = rp["replay"].get("variant", "real")
+    job = (fam, text, n, beta, "none", variant)      # the offset lines are already part of the stored scenario
     _, r, m = one_run(job)
-    problems = analyse(chk, (fam, text, n, beta, kind if not kind.startswith("const") else "none"), r, m, None)
+    problems = analyse(chk, (fam, text, n, beta, kind if not kind.startswith("const") else "none", variant), r, m, None)
     chk.case(sc, "replay", True, sample={"problems": problems})
     if problems:
         chk.violation(rp["key"], rp["what"], rp["replay"])
@@ -383,4 +395,5 @@ def replay(chk, path):
 
 def setup():
     edlib.binaries("real")
+    edlib.binaries("complex")
     pv.build_driver("driver_c09", ["C09_model"], floats=True)
